@@ -71,10 +71,10 @@ func c1Grammar(c *Ctx, rule string) {
 		if kindOfFn != nil && kindOfFn(h) != "" {
 			return false // a unit of its own: decided separately, a single token here
 		}
-		if _, isOpaque := opaque[h.Name()]; isOpaque {
+		if _, isOpaque := opaque[FNm(h)]; isOpaque {
 			return false
 		}
-		return h.Name() != "encodeReflected" && h.Name() != "closeOpenNamespaces" && h.Name() != "putJSONEncoder" && h.Name() != "clone"
+		return FNm(h) != "encodeReflected" && FNm(h) != "closeOpenNamespaces" && FNm(h) != "putJSONEncoder" && FNm(h) != "clone"
 	}
 	tokenOfBytes := func(b []byte) string {
 		out := ""
@@ -94,15 +94,15 @@ func c1Grammar(c *Ctx, rule string) {
 			return ""
 		}
 		switch {
-		case fn.Name() == "EncodeEntry":
+		case FNm(fn) == "EncodeEntry":
 			return "entry"
-		case fn.Name() == "OpenNamespace":
+		case FNm(fn) == "OpenNamespace":
 			return "namespace"
-		case fn.Name() == "addKey":
+		case FNm(fn) == "addKey":
 			return "key"
-		case strings.HasPrefix(fn.Name(), "Add") && len(fn.Name()) > 3 && fn.Name()[3] >= 'A' && fn.Name()[3] <= 'Z':
+		case strings.HasPrefix(FNm(fn), "Add") && len(FNm(fn)) > 3 && FNm(fn)[3] >= 'A' && FNm(fn)[3] <= 'Z':
 			return "member"
-		case strings.HasPrefix(fn.Name(), "Append") && len(fn.Name()) > 6:
+		case strings.HasPrefix(FNm(fn), "Append") && len(FNm(fn)) > 6:
 			return "element"
 		}
 		return ""
@@ -115,7 +115,7 @@ func c1Grammar(c *Ctx, rule string) {
 		if kind == "" {
 			continue
 		}
-		name := fn.String()
+		name := FStr(fn)
 		seqs, trunc := ConcPaths(fn, ConcCfg{
 			Prune: true, MaxStates: 600000, MaxDepth: 9,
 			InitFields: []FieldVal{{Obj: fn.Params[0], Field: "openNamespaces", Val: 0}},
@@ -128,7 +128,7 @@ func c1Grammar(c *Ctx, rule string) {
 						if k := kindOf(sc); k != "" && unit[k] != "" {
 							return unit[k]
 						}
-						if t, ok := opaque[sc.Name()]; ok {
+						if t, ok := opaque[FNm(sc)]; ok {
 							// only when it is given a JSON encoder (the receiver or an argument)
 							for _, a := range x.Call.Args {
 								if r := resolve(st, a); r != nil && isJSONEnc(r.Type()) {
@@ -137,7 +137,7 @@ func c1Grammar(c *Ctx, rule string) {
 							}
 							return ""
 						}
-						if sc.Name() == "clone" || sc.Name() == "putJSONEncoder" || sc.Name() == "closeOpenNamespaces" {
+						if FNm(sc) == "clone" || FNm(sc) == "putJSONEncoder" || FNm(sc) == "closeOpenNamespaces" {
 							return ""
 						}
 					}
@@ -149,7 +149,7 @@ func c1Grammar(c *Ctx, rule string) {
 							}
 							if r := resolve(st, a); r != nil && isJSONEnc(r.Type()) {
 								if x.Call.IsInvoke() {
-									switch x.Call.Method.Name() {
+									switch FNm(x.Call.Method) {
 									case "MarshalLogObject":
 										return "M"
 									case "MarshalLogArray":
@@ -168,7 +168,7 @@ func c1Grammar(c *Ctx, rule string) {
 					if len(args) == 0 || !encBufRecv(c, args[0]) {
 						return ""
 					}
-					switch f.Name() {
+					switch FNm(f) {
 					case "AppendByte", "WriteByte":
 						if k, ok := st.Int(args[1]); ok {
 							return tokenOfBytes([]byte{byte(k)})
@@ -196,7 +196,7 @@ func c1Grammar(c *Ctx, rule string) {
 							return "J"
 						}
 						if ex, ok := src.(*ssa.Extract); ok {
-							if cl, ok := ex.Tuple.(*ssa.Call); ok && CalleeFunc(cl) != nil && CalleeFunc(cl).Name() == "encodeReflected" {
+							if cl, ok := ex.Tuple.(*ssa.Call); ok && CalleeFunc(cl) != nil && FNm(CalleeFunc(cl)) == "encodeReflected" {
 								return "J"
 							}
 						}
